@@ -25,6 +25,9 @@ try:
     r = run(["git", "-C", "/repo", "worktree", "add", "-q", "--detach", wt, "HEAD"], "/")
     assert r.returncode == 0, r.stdout
     r = run(["git", "apply", os.path.abspath(os.path.join(src, "patch.diff"))], wt)
+    if r.returncode != 0:       # context drifted (a later fix: commit nearby): the more tolerant patch(1)
+        r = run(["patch", "-p1", "-s", "-i", os.path.abspath(os.path.join(src, "patch.diff"))], wt)
+        meta["applied_with_fuzz"] = r.returncode == 0
     meta["patch_applies"] = r.returncode == 0
     if r.returncode != 0:
         print("patch does not apply:", r.stdout); sys.exit(2)
